@@ -1,48 +1,68 @@
 (** C05 -- XPath evaluation returns the value XPath 1.0 prescribes.
-    This file only names the theorems; proofs live in Proofs/XPathRefine.v (and Proofs/XPathCanon.v).
+    This file only names the theorems; proofs live in Proofs/XPathRefine*.v (and Proofs/XPathCanon.v).
 
     Specification: [Spec/XPath10.v] ([spec_query], sections 2-5 of the recommendation on tree
     positions) + [Spec/XPathCore.v] (section 4 on scalars, property C09).
     Model: [Model/XPathEval.v] ([query]), tied to the code by the `xpath` correspondence.
 
-    FULL STATEMENT (the goal of the ladder; NOT proved as a whole):
+    FULL STATEMENT, PROVED in round 2 ([C05_eval_refines_spec], closed under the global context):
 
-      Theorem eval_refines_spec : forall doc c e,
-        DocInv doc -> SpecShape doc -> NamesOk doc -> supported e ->
+      forall doc c e,
+        DocInv doc -> SpecShape doc -> NamesOk doc -> ParentsOk doc ->
+        ns_lookup (c_ns c) None = None -> supported (c_ns c) e ->
         value_abs (fst (query doc e c)) = spec_query doc (c_ns c) (get_position c) (get_size c) e.
 
-    where [value_abs] maps [XNodes l] to [SNodes (map Row l)], an error to [None], and [supported e]
-    excludes the namespace axis and [id()].  What is proved ([_partial]: each is one brick of the
-    refinement, universally quantified):
-      rung 0  identity and document order: the model's canonical form of a node list (de-duplicate
-              and sort by ORDER KEY) is the specification's node-set (by TREE POSITION);
-              every node-set value of the model is in document order without duplicates (C07);
-      rung 1  navigation: child, attribute, self, descendant, descendant-or-self axes and the
-              string-values of elements and leaves agree between model and specification;
-              node tests agree given [NamesOk] (the dom's expanded names are those of Namespaces
-              in XML: the statement of C10, decidable: [names_ok_b]);
-              WHOLE QUERIES that are one location path without predicates over these axes and
-              parent / ancestor / ancestor-or-self, with any node tests, [/] and [//], relative or
-              absolute: [query] = [spec_query] ([C05_rung1_paths_partial]).
-      rung 2  (round 2) ALL axes except [namespace] -- following-sibling, preceding-sibling,
-              following, preceding included -- agree as LISTS: the model's axis result is a
-              duplicate-free list of nodes of the tree, the specification's axis the increasing list
-              of the same rows, so that the key sort of a step yields the list the specification
-              numbers the predicates along ([C05_rung2_axes_partial], [C05_rung2_sort_partial]);
-              the string-value of every node of the tree, the document node included
-              ([C05_rung2_string_value_partial]).
-    Hypotheses added in round 2, all decidable and evaluated on every generated document by the
-    extracted checkers: [SpecShape] now also says that the rows read by the specification's walk
-    ([all_nodes]) are in increasing order (the table is the pre-order walk), that a listed
-    attribute is an attribute whose parent observation is the listing element, that a listed child
-    has the listing node as parent observation and a kind with siblings, that row 0 is a document
-    node whose children are one element, comments, processing instructions and the document type;
-    [NamesOk] now also says that a processing instruction reports (target, no prefix, no URI) and
-    that documents, text and comments report no name.
-    Not proved: predicates and the
-    induction over all expressions, comparisons, the function library (C09).  For everything that is not proved the
-    equality is TESTED on every run: checks/C05.py evaluates implementation, model and
-    specification on the same generated cases (and an exhaustive axis x test x predicate family).
+    [value_abs] maps [XNodes l] to [SNodes (map Row l)], scalars to themselves, an error (or a panic,
+    or exhausted fuel) to [None]: the model fails exactly when the specification says the expression
+    is in error.  The induction covers every construct of the language: or / and / = != < <= > >=
+    (with the existential semantics on node-sets) / + - * div mod / unary minus / union / location
+    paths with all axes but [namespace], abbreviated or not, [/] and [//], node tests, PREDICATES
+    on steps and on filter expressions (position and size on the context stacks) / literals,
+    numbers, variable references (an error) / function calls: last, position, count, sum,
+    local-name, namespace-uri, name, lang and the scalar library (through the theorems of C09).
+    [C05_eval_refines_spec_at] is the same statement at any node of the tree with any context
+    position / size (what a predicate sees), including "a value leaves the context unchanged".
+
+    Hypotheses (all decidable; the checkers [doc_inv_b], [spec_shape_b], [names_ok_b],
+    [parents_ok_b] are extracted and evaluated on every generated document by checks/C05.py, which
+    reports how many documents satisfy them):
+      [DocInv]     the table is well formed and order keys increase along it (fails for DTD-default
+                   attributes and namespace nodes with key 0: D19);
+      [SpecShape]  the table is the pre-order walk of the tree of section 5 (the rows read by
+                   [all_nodes] are increasing); a listed attribute is an attribute whose parent
+                   observation is the listing element; a listed child has the listing node as
+                   parent observation and a kind with siblings; row 0 is a document node whose
+                   children are one element, comments, processing instructions, the document type;
+                   entity references carry no data; only documents, elements (and attributes)
+                   have children;
+      [NamesOk]    expanded names are those of Namespaces in XML (the statement of C10); a processing
+                   instruction reports (target, no prefix, no URI); documents, text, comments report
+                   no name;
+      [ParentsOk]  the parent observation is the parent in the tree (fails for documents with a
+                   document type declaration, whose row has the document as dom parent but is not a
+                   node of the data model: the theorem does not speak about those documents);
+      no default namespace binding in the context (XPath 1.0 has none for names in expressions).
+    [supported ns e] (decidable, syntactic: [supported_b] in Proofs/XPathRefineSupp.v) excludes
+      - the namespace axis (namespace nodes have no usable order key and no owner: D19, refuted below);
+      - [id()] (outside the property);
+      - number literals that are not Numbers of the grammar (the parser never builds them);
+      - name tests whose prefix is not bound in [ns]: XPath 1.0 makes an undeclared prefix an error,
+        the implementation reports it only when a node of the principal node type is tested
+        ([C05_refuted_undeclared_prefix], found in round 2);
+      - in a string-typed parameter of a core function and in the argument of [lang]: an argument
+        whose SHAPE allows a negative-zero number (arithmetic, unary minus, number(), sum(),
+        floor(), ceiling(), round()) -- finding D34b of C09: the implementation prints the number
+        negative zero as "-0".
+    Earlier rungs (kept: they are the bricks):
+      rung 0  the model's canonical form of a node list (de-duplicate and sort by ORDER KEY) is the
+              specification's node-set (by TREE POSITION); every node-set value is in document order;
+      rung 1  child, attribute, self, descendant(-or-self), parent, ancestor(-or-self) axes,
+              string-values, node tests, predicate-free location paths;
+      rung 2  ALL axes except [namespace] as LISTS ([C05_rung2_axes_partial]), the key sort of a step
+              ([C05_rung2_sort_partial]), the string-value of every node of the tree.
+    What is still only TESTED (checks/C05.py evaluates implementation, model and specification on
+    the same generated cases on every run): expressions outside [supported], documents outside the
+    hypotheses, and -- as for every property -- that the model is the code (the correspondence).
 
     The statement is moreover false where the dom's data model departs from section 5 (with
     witnesses below and a classifier in checks/xpath_common.py): DTD-default attributes and
@@ -55,6 +75,7 @@ From XmlRs Require Import Base.CPred Model.XPathAst Model.XDoc Model.XDocCheck M
 From XmlRs Require Import Spec.XPath10.
 From XmlRs Require Import Proofs.XPathNav Proofs.XPathSort Proofs.XPathAstPred Proofs.XPathCanon Proofs.XPathRefine
   Proofs.XPathRefinePaths Proofs.XPathRefineTree Proofs.XPathRefineAxes Proofs.XPathRefineVal
+  Proofs.XPathRefineSupp Proofs.XPathRefineEval Proofs.XPathUnion Proofs.XPathDocCheck
   Proofs.XPathExamples Proofs.XPathWitness.
 Import ListNotations.
 
@@ -162,6 +183,97 @@ Theorem C05_rung2_string_value_partial :
     string_value doc i = Ok (s_string_value doc (Row i)).
 Proof. intros doc i Hinv Hs. exact (sv_agrees doc Hinv Hs i). Qed.
 
+(** THE PROPERTY (round 2): for every document table satisfying the four decidable hypotheses, every
+    context without default namespace binding and every SUPPORTED expression, [query] returns the
+    value XPath 1.0 prescribes -- the same boolean, number, string, or the same nodes in document
+    order -- and it fails exactly when XPath 1.0 says the expression is in error.
+    [supported ns e] ([supported_b], Proofs/XPathRefineSupp.v) is a syntactic class: no namespace
+    axis (D19), no [id()], number literals are Numbers of the grammar, the prefixes of name tests are
+    bound in [ns], and no argument in a string-typed parameter of a core function (or of [lang]) has
+    the shape of an expression that can be a negative-zero number (D34b of C09). *)
+Theorem C05_eval_refines_spec :
+  forall (doc : xdoc) (c : ctx) (e : expr),
+    DocInv doc -> SpecShape doc -> NamesOk doc -> ParentsOk doc ->
+    ns_lookup (c_ns c) None = None -> supported (c_ns c) e ->
+    value_abs (fst (query doc e c)) = spec_query doc (c_ns c) (get_position c) (get_size c) e.
+Proof.
+  intros doc c e Hinv Hs Hn Hp Hd Hsup.
+  exact (eval_refines_spec_lemma doc Hinv Hs Hn Hp (c_ns c) Hd c e eq_refl Hsup).
+Qed.
+
+(** every syntactic category, not only whole queries: the statement for an expression evaluated at
+    any node of the tree with any position / size on the context stacks (what a predicate sees),
+    together with "a value leaves the context as it was" *)
+Theorem C05_eval_refines_spec_at :
+  forall (doc : xdoc), DocInv doc -> SpecShape doc -> NamesOk doc -> ParentsOk doc ->
+  forall (c : ctx) (e : expr) (n : node),
+    ns_lookup (c_ns c) None = None -> supported (c_ns c) e -> T doc n ->
+    rrel (vrel doc) c (eval_expr doc e n c) (s_or doc (c_ns c) e (Row n) (get_position c) (get_size c)).
+Proof.
+  intros doc Hinv Hs Hn Hp c e n Hd Hsup Tn.
+  destruct (refine_all doc Hinv Hs Hn Hp (c_ns c) Hd) as [Hor _]. exact (Hor e Hsup n c Tn eq_refl).
+Qed.
+
+Theorem C05_supported_decidable : forall ns e, supported ns e <-> supported_b ns e = true.
+Proof. intros ns e. reflexivity. Qed.
+
+(** the hypotheses are satisfiable by non-trivial documents and expressions, and the theorem then
+    gives the values: on <r a="1"><b>t<e/></b><c><f/></c><d/></r>
+    //e/following::star, (//star)[2], //c | //b, //b[nosuch()] (an error on both sides),
+    //star[position() = last()]; on <r><a/><?p x?><?q y?></r>
+    count(//processing-instruction()), substring("ab", 0), //a/following-sibling::node() *)
+Example C05_example_full_hypotheses :
+  (DocInv ex_doc /\ SpecShape ex_doc /\ NamesOk ex_doc /\ ParentsOk ex_doc) /\
+  (DocInv pi_doc /\ SpecShape pi_doc /\ NamesOk pi_doc /\ ParentsOk pi_doc) /\
+  ns_lookup (c_ns ctx_default) None = None /\
+  supported (c_ns ctx_default) ex_doc_e0 /\ supported (c_ns ctx_default) ex_doc_e1 /\
+  supported (c_ns ctx_default) ex_doc_e2 /\ supported (c_ns ctx_default) ex_doc_e4 /\
+  supported (c_ns ctx_default) ex_doc_e6 /\ supported (c_ns ctx_default) pi_doc_e1 /\
+  supported (c_ns ctx_default) pi_doc_e3 /\ supported (c_ns ctx_default) pi_doc_e4.
+Proof.
+  split; [|split].
+  - split; [apply doc_inv_b_sound; vm_compute; reflexivity|].
+    split; [apply spec_shape_b_sound; vm_compute; reflexivity|].
+    split; [apply names_ok_b_sound; vm_compute; reflexivity|apply parents_ok_b_sound; vm_compute; reflexivity].
+  - split; [apply doc_inv_b_sound; vm_compute; reflexivity|].
+    split; [apply spec_shape_b_sound; vm_compute; reflexivity|].
+    split; [apply names_ok_b_sound; vm_compute; reflexivity|apply parents_ok_b_sound; vm_compute; reflexivity].
+  - repeat split; vm_compute; reflexivity.
+Qed.
+
+Example C05_example_full_values :
+  spec_query ex_doc [] 0 0 ex_doc_e0 = Some (SNodes [Row 9; Row 11; Row 13]%N) /\
+  spec_query ex_doc [] 0 0 ex_doc_e1 = Some (SNodes [Row 4]%N) /\
+  spec_query ex_doc [] 0 0 ex_doc_e4 = None /\
+  spec_query ex_doc [] 0 0 ex_doc_e6 = Some (SNodes [Row 1; Row 7; Row 11; Row 13]%N) /\
+  spec_query pi_doc [] 0 0 pi_doc_e4 = Some (SNodes [Row 5; Row 6]%N) /\
+  value_abs (fst (query ex_doc ex_doc_e6 ctx_default)) = Some (SNodes [Row 1; Row 7; Row 11; Row 13]%N).
+Proof.
+  assert (H6 := C05_eval_refines_spec ex_doc ctx_default ex_doc_e6).
+  destruct C05_example_full_hypotheses as [[H1 [H2 [H3 H4]]] [_ [Hd [_ [_ [_ [_ [S6 _]]]]]]]].
+  specialize (H6 H1 H2 H3 H4 Hd S6).
+  assert (E : spec_query ex_doc [] 0 0 ex_doc_e6 = Some (SNodes [Row 1; Row 7; Row 11; Row 13]%N)) by (vm_compute; reflexivity).
+  split; [vm_compute; reflexivity|]. split; [vm_compute; reflexivity|]. split; [vm_compute; reflexivity|].
+  split; [exact E|]. split; [vm_compute; reflexivity|]. rewrite H6. exact E.
+Qed.
+
+(** outside [supported]: a name test with an UNDECLARED prefix.  XPath 1.0 (2.3) makes it an error;
+    the implementation (and its model) resolves the prefix only when a node of the principal node
+    type is tested, so //text()/self::u:x on the document above is the empty node-set for the model
+    and an error for the specification (difference found in round 2; [supported] asks the prefixes
+    of name tests to be bound) *)
+Definition c05_unbound_prefix : expr :=
+  path_query (PAbs LpDescendantOrSelfNode
+    (ERelPath (StepTest (AxisAbbreviated []) (TestType NtText) ExprNil)
+       (StepopCons LpCurrent (StepTest (AxisName AxCurrent) (TestName (NameQName (QPrefixed [117]%N [120]%N))) ExprNil)
+          StepopNil))).
+
+Theorem C05_refuted_undeclared_prefix :
+  value_abs (fst (query ex_doc c05_unbound_prefix ctx_default)) = Some (SNodes []) /\
+  spec_query ex_doc [] 0 0 c05_unbound_prefix = None /\
+  supported_b [] c05_unbound_prefix = false.
+Proof. vm_compute. repeat split; reflexivity. Qed.
+
 Theorem C05_names_ok_decidable : forall doc : xdoc, names_ok_b doc = true -> NamesOk doc.
 Proof. exact names_ok_b_sound. Qed.
 Theorem C05_parents_ok_decidable : forall doc : xdoc, parents_ok_b doc = true -> ParentsOk doc.
@@ -246,3 +358,5 @@ Print Assumptions C05_rung1_paths_partial.
 Print Assumptions C05_rung2_axes_partial.
 Print Assumptions C05_rung2_sort_partial.
 Print Assumptions C05_rung2_string_value_partial.
+Print Assumptions C05_eval_refines_spec.
+Print Assumptions C05_eval_refines_spec_at.
